@@ -91,6 +91,13 @@ pub fn address_of(i: usize) -> String {
 
 impl Cluster {
     pub fn build(tag: &str, tables: &[PqTable], spec: &ClusterSpec) -> Result<Cluster, String> {
+        Self::build_with_copy(tag, tables, spec, None)
+    }
+
+    /// As `build`, but the participants with `copy[i]` mount a directory that was WRITTEN from
+    /// `copy_tables` (a divergent copy of the data: other rows, other files) instead of a
+    /// byte-identical copy of the initiator's files.
+    pub fn build_with_copy(tag: &str, tables: &[PqTable], spec: &ClusterSpec, copy_tables: Option<&[PqTable]>) -> Result<Cluster, String> {
         let spec = spec.normalized();
         let dir = TempDir::new(tag);
         let orig = dir.path().join("mnt-a");
@@ -99,7 +106,11 @@ impl Cluster {
         }
         let need_copy = (0..spec.nodes).any(|i| i != spec.self_pos && spec.copy[i]);
         let copy = dir.path().join("mnt-b").join("deeper");
-        if need_copy {
+        if let (true, Some(ct)) = (need_copy, copy_tables) {
+            for t in ct {
+                write_parquet(&t.table, &copy.join(&t.table.name), &t.layout);
+            }
+        } else if need_copy {
             for t in tables {
                 let from = orig.join(&t.table.name);
                 let to = copy.join(&t.table.name);
